@@ -37,6 +37,12 @@ def HttpEnv.readAt (e : HttpEnv) (off size : Nat) : Option Bytes :=
 def HttpEnv.readChunks (e : HttpEnv) (ranges : List (Nat × Nat)) : List (Option Bytes) :=
   padItems ranges.length (httpReadChunks e.serve e.retry e.chunksScript (toChunkOffsets ranges)).items
 
+/-- What one call of the remote reader puts on the wire: the `(offset, size)` of every range
+request sent while the call is served (retries included), in order. -/
+def HttpEnv.wire (e : HttpEnv) : ArchReq → List (Nat × Nat)
+  | .readAt off size => (httpReadAt e.serve e.retry off size (e.atScript off size)).2
+  | .readChunks ranges => (httpReadChunks e.serve e.retry e.chunksScript (toChunkOffsets ranges)).reqs
+
 /-- A server that answers a range request with the archive's bytes of that range (a range
 reaching beyond the end gets what is there). -/
 def honestServe (archive : Bytes) (off size : Nat) : Bytes := slice archive off size
